@@ -181,6 +181,43 @@ static void scenario_addcrystal(int fd) {
       if (lw.kind != 0 || lw.aux != 1) say("c18:Crystal::GetCrystalsList:long-name-missing", "the wrapper's list does not hold '" + ln[j] + "'");
     }
   }
+  {   /* atoms handed to the public constructor arrive in the owned C crystal as they were given: occupancies and coordinates that are exact in no
+       * narrower type than double (2^-40 tails, thirds), compared bit for bit with a C struct holding the same numbers - structure factors of the
+       * wrapper object, of a copy, and the atoms C reads back once the object was added */
+    const double tail = 1.0 / 1099511627776.0;
+    const std::string nm = "XvCppExactAtoms";
+    /* (wrapper Atoms can only be obtained from a crystal: the numbers go in through C under another name and come back through GetCrystal) */
+    std::vector<Crystal_Atom> cat(base.atom.size());
+    for (size_t j = 0; j < cat.size(); j++) { cat[j].Zatom = base.atom[j].Zatom; cat[j].fraction = (j % 3 == 0) ? 0.7 + tail : (j % 3 == 1 ? 1.0 / 3.0 : 0.984);
+      cat[j].x = base.atom[j].x + (j % 2 ? tail : 1e-9); cat[j].y = base.atom[j].y * (1.0 - 1e-10) + 1.0 / 7.0 * 1e-3; cat[j].z = base.atom[j].z + 3 * tail; }
+    Crystal_Struct cs; memset(&cs, 0, sizeof cs); std::string nmc = "XvCExactSource"; cs.name = &nmc[0]; cs.a = base.a + 0.25; cs.b = base.b; cs.c = base.c; cs.alpha = base.alpha; cs.beta = base.beta; cs.gamma = base.gamma; cs.volume = 0.0;
+    cs.n_atom = (int)cat.size(); cs.atom = cat.data();
+    if (Crystal_AddCrystal(&cs, NULL, NULL) != 1) { say("harness:scenario", "C refused the source crystal of the exact-atoms scenario"); return; }
+    xrlpp::Crystal::Struct srcw = xrlpp::Crystal::GetCrystal(nmc);
+    std::vector<xrlpp::Crystal::Atom> at = srcw.atom;
+    xrlpp::Crystal::Struct c(nm, base.a + 0.25, base.b, base.c, base.alpha, base.beta, base.gamma, 0.0, at);
+    std::string nmc2 = nm; cs.name = &nmc2[0];
+    for (int h = 1; h <= 3; h++) {
+      xrl_error *ce = NULL; xrlComplex zc = Crystal_F_H_StructureFactor(&cs, 8.0 + h, h, 1, 1, 1.0, 1.0, &ce); int cfail = ce != NULL; if (ce) xrl_error_free(ce);
+      Out w = guarded([&](Out &o) { std::complex<double> z = c.F_H_StructureFactor(8.0 + h, h, 1, 1, 1.0, 1.0); o.v[0] = z.real(); o.v[1] = z.imag(); });
+      Out w2 = guarded([&](Out &o) { xrlpp::Crystal::Struct c2(c); std::complex<double> z = xrlpp::Crystal::F_H_StructureFactor(c2, 8.0 + h, h, 1, 1, 1.0, 1.0); o.v[0] = z.real(); o.v[1] = z.imag(); });
+      for (Out *o : { &w, &w2 })
+        if ((o->kind != 0) != (cfail != 0) || (!cfail && (memcmp(&o->v[0], &zc.re, sizeof(double)) || memcmp(&o->v[1], &zc.im, sizeof(double))))) {
+          char b[300]; snprintf(b, sizeof b, "F_H(%d,1,1) of a crystal built with the public constructor%s: (%.17g, %.17g), C on a struct with the same atoms: (%.17g, %.17g)", h, o == &w2 ? " (copy)" : "", o->v[0], o->v[1], zc.re, zc.im);
+          say("c18:Crystal::Struct:constructed-object-differs-from-C-struct", b); break; }
+    }
+    Out wa = guarded([&](Out &o) { o.v[0] = c.AddCrystal(); });
+    if (wa.kind != 0 || wa.v[0] != 1) say("c18:Crystal::AddCrystal:wrapper-fails-on-success", "adding '" + nm + "': " + KN[wa.kind > 4 ? 4 : wa.kind] + " " + wa.what);
+    else { Crystal_Struct *cc = Crystal_GetCrystal(nm.c_str(), NULL, NULL);
+      if (!cc || cc->n_atom != (int)cat.size()) say("c18:Crystal::Struct:atoms-differ-in-C-object", "C finds " + std::to_string(cc ? cc->n_atom : -1) + " atoms under '" + nm + "'");
+      else for (size_t j = 0; j < cat.size(); j++) if (cc->atom[j].Zatom != cat[j].Zatom || memcmp(&cc->atom[j].fraction, &cat[j].fraction, sizeof(double)) || memcmp(&cc->atom[j].x, &cat[j].x, sizeof(double)) ||
+                                                        memcmp(&cc->atom[j].y, &cat[j].y, sizeof(double)) || memcmp(&cc->atom[j].z, &cat[j].z, sizeof(double))) {
+        char b[300]; snprintf(b, sizeof b, "atom %d given to the constructor as (%d, %.17g, %.17g, %.17g, %.17g) is stored by C as (%d, %.17g, %.17g, %.17g, %.17g)", (int)j, cat[j].Zatom, cat[j].fraction, cat[j].x, cat[j].y, cat[j].z,
+                                   cc->atom[j].Zatom, cc->atom[j].fraction, cc->atom[j].x, cc->atom[j].y, cc->atom[j].z);
+        say("c18:Crystal::Struct:atoms-differ-in-C-object", b); break; }
+      if (cc) Crystal_Free(cc); }
+    say("info", "exact_atoms=" + std::to_string(at.size()));
+  }
   { int nn = 0; char **l1 = Crystal_GetCrystalsList(NULL, &nn, NULL); if (l1) { for (int k = 0; l1[k]; k++) xrlFree(l1[k]); xrlFree(l1); n0 = nn; } }
   for (int k = 0; k < CRYSTALARRAY_MAX + 8 - n0; k++) {
     char name[40]; snprintf(name, sizeof name, "XvCpp%04d", k);
